@@ -215,6 +215,8 @@ class CallMixin(ExprMixin):
                     return self.apply_model(st, cm, recv, args, kw, node, ftext)
                 if th.name in self.c.inline or ("%s.%s" % (rt.cls, th.name)) in self.c.inline:
                     return self.inline_call(st, rt.cls, th.name, recv, args, kw, node)
+                if th.name == "create_future":
+                    return [(st, self.new_future(st))]          # loop.create_future()
                 raise Unsupported("call to %s.%s without contract or model (line %s)" % (rt.cls, th.name, self.cur_line))
             if isinstance(rt, (List, Set, Dict)) or rt == BYTES:
                 return self.container_method(st, recv, th.name, args, kw, node)
@@ -257,6 +259,9 @@ class CallMixin(ExprMixin):
                 return self.apply_contract(st, con, None, args, kw, node)
             if name == "create_future" or ftext.endswith("create_future"):
                 return [(st, self.new_future(st))]
+            if ftext in ("collections.defaultdict", "defaultdict", "collections.deque", "deque", "collections.OrderedDict"):
+                # container constructors: typed by the contract's c.local()/field declaration at the assignment
+                return [(st, V(PYOBJ, PyThing("emptylist" if ftext.endswith("deque") else "emptydict")))]
             if name in self.c.inline and k == "func":
                 return self.inline_call(st, None, name, None, args, kw, node)
             raise Unsupported("call to %s without contract or model (line %s)" % (ftext, self.cur_line))
@@ -317,6 +322,12 @@ class CallMixin(ExprMixin):
             raise Unsupported("len of %s" % a.ty)
         if n in ("min", "max") and len(args) == 2:
             a, b = args
+            if isinstance(a.ty, Opt):
+                a = self.coerce_to(st, a, a.ty.inner, n)
+            if isinstance(b.ty, Opt):
+                b = self.coerce_to(st, b, b.ty.inner, n)
+            if a.ty != b.ty and {a.ty, b.ty} == {INT, REAL}:
+                a, b = T.coerce(a, REAL), T.coerce(b, REAL)
             if a.ty == b.ty and a.ty in (INT, REAL):
                 c = (a.t < b.t) if n == "min" else (a.t > b.t)
                 return [(st, V(a.ty, z3.If(c, a.t, b.t)))]
@@ -632,6 +643,16 @@ class CallMixin(ExprMixin):
                 for label, expr in con.requires_:
                     self.oblige(st, "pre", "%s:%s" % (tag, label), self.spec_bool(expr, call_st, old=call_st), node.lineno)
             return [(st, res)]
+        if not self.spec and con.self_cls and not con.no_class_inv and recv is not None:
+            mine = self.entry is not None and "self" in self.entry.env and self.c.self_cls == con.self_cls \
+                and recv.t.eq(self.entry.env["self"].t)
+            for label, expr in self.class_inv(con.self_cls, assumed=True):
+                g = self.spec_bool(expr, call_st, old=call_st)
+                if mine and label.startswith("inv:"):
+                    # re-entrant call on the object whose invariant this method may have broken: prove it
+                    self.oblige(st, "pre", "%s:%s" % (tag, label), g, node.lineno)
+                else:
+                    st.assume(g)          # visible-state invariant of another object
         if not self.spec:
             for label, expr in con.requires_:
                 g = self.with_mode_of(con, lambda: self.spec_bool(expr, call_st, old=call_st))
@@ -674,7 +695,8 @@ class CallMixin(ExprMixin):
         post_st = normal_st.copy()
         post_st.env = dict(env)
         post_st.env["result"] = res
-        for label, expr in con.ensures_:
+        auto = self.class_inv(con.self_cls) if (con.self_cls and not con.no_class_inv and recv is not None) else []
+        for label, expr in auto + list(con.ensures_):
             normal_st.assume(self.spec_assume(expr, post_st, old=call_st))
         if is_async:
             return [(normal_st, V(PYOBJ, PyThing("awaited", value=res)))]
